@@ -96,15 +96,22 @@ func (m *modeStore) Close() error                          { return nil }
 func (m *modeStore) String() string                        { return "mode" }
 
 func classErr(err error) string {
-	var mi desync.ChunkMissing
-	var no desync.NoSuchObject
 	switch {
 	case err == nil:
 		return "ok"
-	case errors.As(err, &mi), errors.As(err, &no), os.IsNotExist(err):
+	case isType(err), os.IsNotExist(err):
 		return "missing"
 	}
 	return "error"
+}
+
+// by dynamic type, as desync's consumers recognise "missing"
+func isType(err error) bool {
+	switch err.(type) {
+	case desync.ChunkMissing, desync.NoSuchObject:
+		return true
+	}
+	return false
 }
 
 func main() {
